@@ -10,7 +10,9 @@ exactly, the dump of the same strategy run alone by a plain Actuator on freshly 
 that strategy alone.  Every manager run happens in a fresh subprocess (`multiprocessing.set_start_method` is once-per-process).
 Correspondence: the manager model (Demeter.Manager: which of the objects a backtest receives are copies, per layer: market
 objects, frame columns, frame values, objects nested in cells, price frame) is run on the projection "what did each strategy
-find" of the same scripts and must predict it for every strategy.
+find" of the same scripts and must predict it for every strategy — and, for strategies that end their backtest with an exception
+(`raiser`), which strategies produce a result at all and whether run() returns (`managerRunF` with the failure handling read from
+the source: in-process loop catching per strategy, pooled branches waiting for every task).
 """
 from __future__ import annotations
 
@@ -25,7 +27,7 @@ from decimal import Decimal
 from fractions import Fraction
 
 PROPERTY = "C19"
-LEAN_MODULES = ["Proofs.C19"]
+LEAN_MODULES = ["Proofs.C19", "Proofs.C19.Failure"]
 DRIVERS = ["driver_metrics"]
 RULE = ("1-4 scripted strategies out of 29 behaviours — trading: idle, add liquidity once/twice, add then remove, buy, sell, rebalance, add on a second "
         "Uniswap market, failing operation, Aave supply, Aave supply+borrow, option buy / buy+sell / two buys of the same instrument in the same hourly "
@@ -33,7 +35,8 @@ RULE = ("1-4 scripted strategies out of 29 behaviours — trading: idle, add liq
         "indicator column and trade on it, act on such a column if present, watcher (notes prices, status rows, best ask and trades by them); writing "
         "into what they were handed: overwrite frame values in place, multiply a column of self.prices and set a cell by position, overwrite cells of "
         "every market's frame by position (and replace an order-book cell), decrement order-book levels nested in cells of self.data in place, write "
-        "through snapshot.market_status / market.market_status (rows and nested lists), change the balances of their own account — over the market "
+        "through snapshot.market_status / market.market_status (rows and nested lists), change the balances of their own account; ending their own "
+        "backtest with an uncaught exception from on_bar (no result alone, none under the manager, everybody else unaffected) — over the market "
         "mixes {uni}, {uni,uni}, {uni,aave}, {deribit}, {uni,deribit}, {oSQTH pool, squeeth}, {gmx v1}, price frames float / all-Decimal, threads in "
         "{1,2,4} (fork; some pooled cases through the Windows branch), identity/reversed orders and all 6 orders of one triple (all orders in the "
         "thorough tier), plus 6 manager-level edge scenarios; bucket = (path, threads, number of strategies, market mix, price kind, multiset of "
@@ -947,16 +950,23 @@ def judge_case(ctx, case, outcome, solo_cache, model_reqs):
                 ok = False
     kinds = "+".join(sorted(case["behaviours"]))
     ctx.case(f"{path}:t{case['threads']}:n{len(strategies)}:{mix}:{case['price_kind']}:{case.get('interval', '1min')}:{kinds}:{case.get('order_kind', 'id')}:{'ok' if ok else 'bad'}", case)
-    # the manager model on the projection "what did each strategy find"
-    if all(res.get(s["sid"]) is not None for s in strategies):
-        observed = []
+    # the manager model on the projections "who produces a result at all" (a strategy that raises does not: `fails`) and "what did each
+    # strategy find"; not asked when the worker itself broke down (reported above)
+    if rc == 0 and mgr is not None:
+        found = []
         for s in ordered:
-            f = res[s["sid"]]["found"]
+            r = res.get(s["sid"])
+            if r is None:
+                found.append(None)
+                continue
+            f = r["found"]
             p = (f["pos"] + [0])[:2]
-            observed.append([p[0] > 0, p[1] > 0, bool(f["link"]), f["cols"] > 0, f["vals"] > 0, f["cells"], f["prices"] > 0])
+            found.append([p[0] > 0, p[1] > 0, bool(f["link"]), f["cols"] > 0, f["vals"] > 0, f["cells"], f["prices"] > 0])
+        observed = {"results": [r is not None for r in found], "found": found, "reraised": bool(mgr.get("raised"))}
         model_reqs.append(({"fn": "manager", "threads": case["threads"], "attach": "current", "cow": COW, "windows": bool(case.get("windows")),
                             "priceDec": case["price_kind"] == "decimal", "linked": "squeeth" in case["markets"],
-                            "effects": [effect(case, s["behaviour"], s["arg"]) for s in ordered]}, observed, case))
+                            "effects": [effect(case, s["behaviour"], s["arg"]) for s in ordered],
+                            "fails": [s["behaviour"] == "raiser" for s in ordered]}, observed, case))
 
 
 def judge_solo(ctx, key, solo):
@@ -1051,6 +1061,8 @@ def gen_cases(ctx):
     fixed(["uni_a"], 2, ["raiser", "add1", "buy"])
     fixed(["uni_a"], 2, ["add1", "buy", "raiser", "sell"])
     fixed(["uni_a"], 4, ["raiser", "raiser", "add1", "watcher"])
+    fixed(["uni_a"], 2, ["raiser", "add1", "buy"], windows=True)           # … and through the pooled branch that pickles the data per task
+    fixed(["uni_a", "uni_b"], 2, ["add1", "raiser", "add_b", "raiser"], windows=True)
     # Squeeth refers to its oSQTH pool market: both are configured markets
     fixed(["uni_sq", "squeeth"], 1, ["sq_buy", "sq_short", "idle", "mut_data"], price_kind="decimal")
     fixed(["uni_sq", "squeeth"], 2, ["sq_short", "sq_buy", "watcher"])
@@ -1141,18 +1153,33 @@ def run(ctx):
         answers = driver_json([r[0] for r in model_reqs], exe="driver_metrics")
         # the same with every task on one worker: where the two predictions differ, the answer depends on the OS's scheduling
         # (impossible with the current code, by C19_pooled_isolated) and only the violation is reported, not a disagreement
-        one = driver_json([dict(r[0], oneWorker=True) for r in model_reqs], exe="driver_metrics")
+        # … and, should the pooled branches fetch their tasks with `.get()`, with none of the tasks after the first failing one finished
+        # when it re-raises (the first request: all of them finished)
+        one = driver_json([dict(r[0], oneWorker=True, noneFinished=True) for r in model_reqs], exe="driver_metrics")
         for (req, observed, case), a, a1 in zip(model_reqs, answers, one):
             if "error" in a:
                 ctx.disagree(f"driver error: {a['error']}", case)
                 continue
-            if a.get("found") != a1.get("found"):
+            if a.get("found") != a1.get("found") or a.get("outcome") != a1.get("outcome"):
                 ctx.count("schedule_dependent_predictions")
                 continue
-            predicted = [[int(r[0]) > 0, int(r[1]) > 0, bool(r[2]), int(r[3]) > 0, int(r[4]) > 0, str(Fraction(r[5])), int(r[6]) > 0] for r in a["found"]]
-            if predicted != observed:
+            if "found" not in a:
+                ctx.disagree(f"manager model predicts that run() raises {a.get('outcome')} before any backtest, the implementation ran "
+                             f"{len(observed['results'])} strategies (threads {req['threads']})", case)
+                continue
+            # which strategies produce a result (model: `managerRunF` with the failure handling read from the source; `raiser` fails)
+            has = [bool(x) for x in a["results"]]
+            ctx.count("model_result_predictions", len(has))
+            if has != observed["results"] or (a["outcome"] == "aborted") != observed["reraised"]:
+                ctx.disagree(f"manager model predicts [has a result] = {has} and run() {'re-raises' if a['outcome'] == 'aborted' else 'returns'} for strategies "
+                             f"failing = {req['fails']}; the implementation: {observed['results']}, run() {'re-raised' if observed['reraised'] else 'returned'} "
+                             f"(threads {req['threads']})", case)
+                continue
+            predicted = [None if r is None else [int(r[0]) > 0, int(r[1]) > 0, bool(r[2]), int(r[3]) > 0, int(r[4]) > 0, str(Fraction(r[5])), int(r[6]) > 0]
+                         for r in a["found"]]
+            if predicted != observed["found"]:
                 ctx.disagree(f"manager model predicts that the strategies find [positions on market 1, on market 2, market references intact, columns added, values overwritten, depth taken, prices overwritten] = {predicted}, "
-                             f"the implementation's strategies found {observed} (threads {req['threads']})", case)
+                             f"the implementation's strategies found {observed['found']} (threads {req['threads']})", case)
 
 
 def replay(ctx, case) -> bool:
